@@ -85,6 +85,10 @@ CHECKS = {
          "other",
          "The chunker as a string algorithm and run-time evaluation are out of reach. Decided for all strings: user text enters generated code only quoted/exported (so the literal denotes the original string) or through a grammar that admits no quote/space; the token and argument grammars equal the documentation; no factory or resolver is shadowed, catch-alls are last, functions are prepended; one token keeps its type, several are concatenated in order, none is an error; references emitted = recorded; built-ins are registered first and their helpers have the documented calls, signatures, default rule and error discipline.",
          "DESIGN.md §4 C03"),
+ "C12": ("enumeration of every panic-capable SSA construct of module code with a local discharge rule per site (constant pattern, Supports-guarded assertion resolved through the wiring, range-index/equal-length, len guards, library contracts, paired Indent/EndIndent, nil guards), SCCs of the CHA call graph, loop-shape lint, constant-set bound for strings.Repeat, static type-check of the reflective dependency-injection wiring in gontainer.go",
+         "other",
+         "Decides for all inputs that module code itself cannot panic or loop: every one of ~400 panic-capable sites is discharged by a stated local rule or reported; the only call-graph cycle is the composite-step pattern bounded by the acyclic wiring; all loops are bounded; the aligned printer's Repeat count is non-negative for the finite set of strings that can reach it; the container wiring type-checks, so buildRunner's Must* calls cannot panic; exit status and output-file contract rules are shared with C10. Third-party parsers, resource exhaustion and the runtime's cycle enumeration are not decided.",
+         "DESIGN.md §4 C12"),
 }
 NOT_YET = "check not built yet in this session (design in DESIGN.md §4); will be claimed once its rules run on /repo"
 
